@@ -239,6 +239,23 @@ func c04Run(r *sim.Run) {
 			panic(sim.HarnessAbort{Msg: "raw fragment producer: " + err.Error()})
 		}
 		x, name = p.Stream(), "raw-fragment-stream"
+		if t.Bool() {
+			// a random access index at the end: one tfra per track, with entry counts that need not agree
+			var offs []uint64
+			if top, err := ref.Walk(x, 0, int64(len(x)), false); err == nil {
+				for _, b := range top {
+					if b.Type == "moof" {
+						offs = append(offs, uint64(b.Start))
+					}
+				}
+			}
+			counts := make([]int, len(p.Tracks))
+			for i := range counts {
+				counts[i] = t.Draw(len(offs) + 2)
+			}
+			x = append(x, work.RawMfraTracks(offs, counts)...)
+			name += "+mfra"
+		}
 	} else {
 		cf := c04Bases[t.Draw(len(c04Bases))]
 		x, name = append([]byte(nil), cf.Data...), cf.Name
